@@ -271,7 +271,8 @@ def generate(rng, tier, index):
                           "torn-cut", "torn-cut", "missing-fragment",
                           "open-fault", "define-conflict", "define-repeat",
                           "include-twice", "include-via-define",
-                          "import-in-fragment"])
+                          "import-in-fragment", "deep-chain",
+                          "odd-first-char"])
     plan = {"prop": ID, "schema_xml": xml, "top": uni["top"],
             "variant": variant, "fault": None}
     res = TF.res_texts(uni)
@@ -308,6 +309,52 @@ def generate(rng, tier, index):
                 top.insert(0, "<zzimp zzearly/>")
             res[uni["top"]] = [x for t in top for x in t.split("\n")]
             plan["imports"] = True
+        else:
+            plan["variant"] = "plain"
+    elif variant == "deep-chain":
+        # "to any include depth": one %include is replaced by a chain of D
+        # resources, each consisting of one %include of the next; the last
+        # one includes the original target
+        incs = [(u, i) for u, ls in sorted(res.items())
+                for i, t in enumerate(ls) if _INC.match(t)
+                and "$" not in _INC.match(t).group(1)]
+        if incs:
+            u, i = rng.choice(incs)
+            target = urllib.parse.urljoin(u, _INC.match(res[u][i]).group(1))
+            res = {k: list(v) for k, v in res.items()}
+            depth = rng.choice([4, 9, 17, 18, 25, 40])
+            prev, first = u, None
+            chain = []
+            for k in range(depth):
+                ref = rng.choice(["dc%d.conf", "dcsub/dc%d.conf",
+                                  "../dc%d.conf", "./dc%d.conf"]) % k
+                url = urllib.parse.urljoin(prev, ref)
+                if url in res or url in chain:
+                    ref = "dcx%d-%d.conf" % (k, len(chain))
+                    url = urllib.parse.urljoin(prev, ref)
+                if first is None:
+                    first = ref
+                else:
+                    res[prev] = ["%include " + ref] + (
+                        ["# chain link"] if rng.random() < 0.2 else [])
+                chain.append(url)
+                prev = url
+            res[prev] = ["%include " + target]
+            indent = res[u][i][:len(res[u][i]) - len(res[u][i].lstrip())]
+            res[u][i] = indent + "%include " + first
+            plan["chain_depth"] = depth
+        else:
+            plan["variant"] = "plain"
+    elif variant == "odd-first-char":
+        # the first line of a fragment starts with a character that is
+        # invisible in an editor (byte order mark, zero-width space ...): it
+        # belongs to the line, wherever the line stands
+        frs = sorted(u for u in res if u != uni["top"] and res[u])
+        if frs:
+            u = rng.choice(frs)
+            res = {k: list(v) for k, v in res.items()}
+            res[u][0] = rng.choice(["\ufeff", "\ufeff", "\u200b", "\u2060",
+                                    "\ufeff\ufeff"]) + res[u][0].lstrip()
         else:
             plan["variant"] = "plain"
     elif variant == "include-via-define":
@@ -534,7 +581,8 @@ def _execute(plan, out, store, decoys_in, top, real, report_plan=None):
             raise RuntimeError("inliner left an include: %r" % inlined)
         if variant in ("plain", "invalid", "define-conflict",
                        "define-repeat", "include-twice",
-                       "include-via-define", "import-in-fragment"):
+                       "include-via-define", "import-in-fragment",
+                       "deep-chain", "odd-first-char"):
             if oi["ok"] != oc["ok"]:
                 violation("outcome-differs",
                           "inlined text %s but cut layout %s"
